@@ -415,10 +415,35 @@ def binop(ev, op, a, b, node, fr):
         (a.tag == "unit" and isinstance(op, ast.Pow)) else None
     if tag == "unit":
         unit = r
+    if getattr(ev, "float_fold", False) and isinstance(op, (ast.Add, ast.Sub, ast.Mult, ast.Div)) and (a.isfloat or b.isfloat) \
+            and kind == "number" and not shape and x.is_Rational and y.is_Rational and sp.sympify(r).is_Rational:
+        # both operands are concrete doubles: fold with IEEE semantics (the exact result rounded to nearest-even double)
+        r = round_to_double(sp.sympify(r))
     out = Num(r, kind=kind, shape=shape, axes=axes, unit=unit, tag=tag,
               backend=a.backend or b.backend, dtype=a.dtype or b.dtype,
               isfloat=a.isfloat or b.isfloat or isinstance(op, ast.Div) or kind in ("quantity", "time"))
     return out
+
+
+def round_to_double(q):
+    """The double nearest to the rational q (ties to even), as an exact rational.  Fraction -> float is correctly rounded."""
+    from fractions import Fraction
+    fr_ = Fraction(int(q.p), int(q.q))
+    try:
+        f = float(fr_)
+    except OverflowError:
+        return q
+    g = Fraction(f)
+    return sp.Rational(g.numerator, g.denominator)
+
+
+def is_double(q):
+    from fractions import Fraction
+    try:
+        fr_ = Fraction(int(q.p), int(q.q))
+        return Fraction(float(fr_)) == fr_
+    except Exception:
+        return False
 
 
 def nd_materialize(x):
@@ -1134,7 +1159,11 @@ def to_decimal(e):
 
 
 def py_str_of_number(e):
-    """str(float) for a value that is exactly representable (dyadic, few digits): its exact decimal expansion."""
+    """str(float) / str(np.float64): the shortest decimal string that round-trips (CPython and NumPy agree on the digits),
+    for a value that is exactly a double."""
+    if e.is_Rational and is_double(e):
+        from fractions import Fraction
+        return repr(float(Fraction(int(e.p), int(e.q))))
     if e.is_Integer:
         return str(int(e)) + ".0"
     d = to_decimal(e)
@@ -1285,6 +1314,13 @@ def num_method(ev, x: Num, name, args, kwargs, fr, node):
         if x.shape is not None and len(perm) == len(x.shape):
             shape = [x.shape[p] for p in perm]
         return Num(F["Transpose"](x.expr, *perm), kind=x.kind, shape=shape, backend=x.backend, tag=x.tag, dtype=x.dtype)
+    if name in ("ravel", "flatten") and x.tag == "elemarr":
+        # element order matters to the caller (flat indices): keep the flattening order in the term
+        o = kwargs.get("order", args[0] if args else StrV("C"))
+        if not isinstance(o, StrV):
+            ev.unsupported("ravel/flatten with a computed order", node, fr)
+        size = sp.Mul(*x.shape) if x.shape else sp.Integer(1)
+        return Num(F["Ravel"](x.expr, sp.Symbol("order_" + o.s)), kind=x.kind, shape=(size,), tag="elemarr", dtype=x.dtype)
     if name in ("ravel", "flatten", "squeeze", "view", "item", "tolist"):
         return x
     if name == "isclose":
@@ -2111,6 +2147,17 @@ def h_can_cast(ev, args, kwargs, fr, node):
     ev.unsupported("np.can_cast between dtypes the evaluator does not know", node, fr)
 
 
+def h_unravel_index(ev, args, kwargs, fr, node):
+    idx = args[0]
+    shp = args[1] if len(args) > 1 else kwargs.get("shape")
+    o = kwargs.get("order", args[2] if len(args) > 2 else StrV("C"))
+    if not isinstance(idx, Num) or not isinstance(shp, (TupleV, ListV)) or not isinstance(o, StrV):
+        ev.unsupported("np.unravel_index of values the evaluator does not follow", node, fr)
+    dims = [d_.expr for d_ in shp.items]
+    term = F["Unravel"](idx.expr, sp.Symbol("order_" + o.s), *dims)
+    return Num(term, kind="array", shape=idx.shape, tag="unravel")
+
+
 def h_full(ev, args, kwargs, fr, node):
     fill = kwargs.get("fill_value", args[1] if len(args) > 1 else None)
     if not isinstance(fill, Num) or not fill.expr.is_number:
@@ -2791,6 +2838,7 @@ EXT = {
     "dask.array.fft.fftfreq": lambda ev, a, k, fr, n: h_fftfreq(ev, a, k, fr, n, backend="dask"),
     "numpy.zeros": h_zeros, "numpy.ones": lambda ev, a, k, fr, n: h_zeros(ev, a, k, fr, n, fill=1),
     "numpy.full": lambda ev, a, k, fr, n: h_full(ev, a, k, fr, n),
+    "numpy.unravel_index": lambda ev, a, k, fr, n: h_unravel_index(ev, a, k, fr, n),
     "numpy.can_cast": lambda ev, a, k, fr, n: h_can_cast(ev, a, k, fr, n),
     "numpy.array": h_array, "numpy.asarray": h_array, "numpy.asanyarray": h_array,
     "dask.array.asanyarray": lambda ev, a, k, fr, n: a[0].like(a[0].expr, backend="dask") if isinstance(a[0], Num) else a[0],
